@@ -237,6 +237,7 @@ func main() {
 	genTables(*repo, *out)
 	genSkeletons(*repo, *out)
 	genShared(*repo, *out)
+	genJs(*repo, *out)
 }
 
 func genTables(repo, out string) {
@@ -262,6 +263,7 @@ func genTables(repo, out string) {
 	xt := parseFile(filepath.Join(repo, "xml", "table.go"))
 	emitPairs(&w, "xml_entities", "xml/table.go EntitiesMap", stringMap(findVar(xt, "EntitiesMap"), false))
 	emitPairs(&w, "xml_text_rev_entities", "xml/table.go TextRevEntitiesMap", stringMap(findVar(xt, "TextRevEntitiesMap"), false))
+	emitPairs(&w, "xml_attr_rev_entities", "xml/table.go AttrRevEntitiesMap", stringMap(findVar(xt, "AttrRevEntitiesMap"), false))
 	ct := parseFile(filepath.Join(repo, "css", "table.go"))
 	emitPairs(&w, "css_zero_dimensions", "css/table.go optionalZeroDimension (units dropped from zero values)", stringMap(findVar(ct, "optionalZeroDimension"), false))
 	emitPairs(&w, "css_shorten_color_hex", "css/table.go ShortenColorHex: hex -> keyword", stringMap(findVar(ct, "ShortenColorHex"), false))
